@@ -14,6 +14,7 @@ import (
 	"bytes"
 	"context"
 	"fmt"
+	"net"
 	"runtime"
 	"strings"
 	"sync"
@@ -25,6 +26,7 @@ import (
 	"github.com/plgd-dev/go-coap/v3/message/codes"
 	"github.com/plgd-dev/go-coap/v3/message/pool"
 	"github.com/plgd-dev/go-coap/v3/mux"
+	"github.com/plgd-dev/go-coap/v3/net/responsewriter"
 	"github.com/plgd-dev/go-coap/v3/options"
 	"github.com/plgd-dev/go-coap/v3/tcp"
 	tcpclient "github.com/plgd-dev/go-coap/v3/tcp/client"
@@ -59,9 +61,9 @@ type env struct {
 	peerClose func()
 	// peerConnClose: the peer closes THIS connection (server-side Close of the per-peer connection: FIN / close_notify)
 	peerConnClose func()
-	stall     func() // stream: the peer stops reading
-	cleanup   func()
-	closeCnt  [3]atomic.Int32
+	stall         func() // stream: the peer stops reading
+	cleanup       func()
+	closeCnt      [3]atomic.Int32
 }
 
 // ---------------------------------------------------------------- in-memory transports
@@ -188,7 +190,7 @@ func newMemEnv(c ccase, limit int64, nstart uint32) (*env, error) {
 // ---------------------------------------------------------------- loopback sockets
 
 type sockServer struct {
-	conns   sync.Map // server-side connections seen by the handler
+	conns sync.Map // server-side connections seen by the handler
 
 	srv     *netenv.Server
 	mu      sync.Mutex
@@ -742,6 +744,7 @@ func TestRun(t *testing.T) {
 	wg.Wait()
 	serverStop(rec)
 	parentContext(rec)
+	closeWithFullQueue(rec)
 	rec.SetExhaustive(true)
 	rec.Assume("liveness is bounded progress: after the action the call must return within 6 s (typical latency: microseconds); a firing watchdog is a violation only if a goroutine is parked in the library's wait points, otherwise inconclusive")
 	rec.Assume("'queued behind the limiter / NSTART' has no observable event; the harness gives the call 2 ms to queue up before acting")
@@ -885,5 +888,108 @@ func parentContext(rec *vr.Rec) {
 			case <-time.After(watchdog):
 			}
 		}
+	}
+}
+
+// closeWithFullQueue: the connection's handler is busy, the peer keeps sending and the receive queue is full - the socket
+// reader is parked handing the next message over. Close() (several at once) must still end the reader: the done signal
+// completes and the on-close callback runs exactly once.
+func closeWithFullQueue(rec *vr.Rec) {
+	for rep := 0; rep < vr.Scale(4, 60); rep++ {
+		kind := []string{"tcp-mem", "udp"}[rep%2]
+		queue := []int{0, 1, 4}[rep%3]
+		c := map[string]any{"scenario": "close-while-receive-queue-is-full", "transport": kind, "queue_size": queue, "closers": 1 + rep%3}
+		gate := make(chan struct{})
+		var entered atomic.Int32
+		var onClose atomic.Int32
+		var closeFn func() error
+		var doneCh <-chan struct{}
+		cleanup := func() {}
+		switch kind {
+		case "tcp-mem":
+			sc := sim.NewScriptConn()
+			cc, err := sim.NewTCPConn(sc, sim.TCPOpts{
+				Mutate: func(cfg *tcpclient.Config) { cfg.ReceivedMessageQueueSize = queue },
+				Handler: func(w *responsewriter.ResponseWriter[*tcpclient.Conn], r *pool.Message) {
+					entered.Add(1)
+					<-gate
+				}})
+			if err != nil {
+				rec.Inconclusive("close-with-full-queue: " + err.Error())
+				continue
+			}
+			cc.AddOnClose(func() { onClose.Add(1) })
+			for i := 0; i < queue+6; i++ {
+				sc.Feed(ref.EncodeTCP(ref.Msg{Code: 1, Token: []byte{byte(i), 1}, Opts: []ref.Opt{{ID: 11, Val: []byte("q")}}}))
+			}
+			closeFn, doneCh = cc.Close, cc.Done()
+		case "udp":
+			pc, err := net.ListenUDP("udp4", &net.UDPAddr{IP: net.IPv4(127, 0, 0, 1)})
+			if err != nil {
+				rec.Inconclusive("close-with-full-queue: " + err.Error())
+				continue
+			}
+			cc, err := udp.Dial(pc.LocalAddr().String(), options.WithReceivedMessageQueueSize(queue),
+				options.WithHandlerFunc(func(w *responsewriter.ResponseWriter[*udpclient.Conn], r *pool.Message) {
+					entered.Add(1)
+					<-gate
+				}))
+			if err != nil {
+				_ = pc.Close()
+				rec.Inconclusive("close-with-full-queue: " + err.Error())
+				continue
+			}
+			cc.AddOnClose(func() { onClose.Add(1) })
+			// the client says hello so that the raw peer learns its address, then the peer floods it
+			hello := cc.AcquireMessage(context.Background())
+			tok, _ := message.GetToken()
+			_ = hello.SetupGet("/hello", tok)
+			hello.SetType(message.NonConfirmable)
+			_ = cc.WriteMessage(hello)
+			cc.ReleaseMessage(hello)
+			buf := make([]byte, 1500)
+			_ = pc.SetReadDeadline(time.Now().Add(5 * time.Second))
+			_, from, rerr := pc.ReadFromUDP(buf)
+			if rerr != nil {
+				_ = cc.Close()
+				_ = pc.Close()
+				rec.Inconclusive("close-with-full-queue: raw peer got nothing")
+				continue
+			}
+			for i := 0; i < queue+8; i++ {
+				_, _ = pc.WriteToUDP(ref.EncodeUDP(ref.Msg{Type: 1, Code: 1, MID: uint16(100 + i), Token: []byte{byte(i), 2}, Opts: []ref.Opt{{ID: 11, Val: []byte("q")}}}), from)
+			}
+			closeFn, doneCh = cc.Close, cc.Done()
+			cleanup = func() { _ = pc.Close() }
+		}
+		sim.WaitFor(5*time.Second, func() bool { return entered.Load() >= 1 })
+		time.Sleep(3 * time.Millisecond) // the reader fills the queue and parks on the next hand-over
+		rec.Eval(fmt.Sprintf("close-full-queue|%s|%d|%d", kind, queue, rep))
+		rec.Count("close_with_full_queue_cases", 1)
+		var cwg sync.WaitGroup
+		for g := 0; g < 1+rep%3; g++ {
+			cwg.Add(1)
+			go func() { defer cwg.Done(); _ = closeFn() }()
+		}
+		closed := make(chan struct{})
+		go func() { cwg.Wait(); close(closed) }()
+		select {
+		case <-closed:
+		case <-time.After(watchdog):
+			rec.Violation("C09/"+strings.TrimSuffix(kind, "-mem")+"/close-does-not-return", "Close() while the receive queue is full and the handler busy", c)
+		}
+		select {
+		case <-doneCh:
+			time.Sleep(200 * time.Microsecond)
+			if n := onClose.Load(); n != 1 {
+				rec.Violation("C09/"+strings.TrimSuffix(kind, "-mem")+"/on-close-count", fmt.Sprintf("on-close callback ran %d times (close with a full receive queue)", n), c)
+			} else {
+				rec.Count("full_queue_connections_closed_cleanly", 1)
+			}
+		case <-time.After(watchdog):
+			rec.Violation("C09/"+strings.TrimSuffix(kind, "-mem")+"/done-never-closes", fmt.Sprintf("Close() returned, but with the receive queue full (size %d, handler busy) Done() did not complete within the watchdog; on-close callbacks run: %d", queue, onClose.Load()), c)
+		}
+		close(gate)
+		cleanup()
 	}
 }
